@@ -458,12 +458,19 @@ class Translator:
         env2 = dict(env)
         if isinstance(src[1], tuple) and src[1][0] == "obj":
             env2[var] = self.sym_object(src[1][1], "x_", h2)
+            heap = copy.deepcopy(h2)      # the element object is not "fresh"
         else:
             env2[var] = (src[1], "x_")
         n0 = len(self.pending)
         v = self.expr(node.elt, env2, h2)
         if len(self.pending) != n0:
             _bad(node, "comprehension element can raise")
+        if v[0] == "ref" and v[1] not in heap and h2[v[1]]["__class__"] in getattr(self, "record_ctors", {}):
+            # a freshly constructed object of a record class with a stated constructor term
+            if any(h2.get(o) != heap[o] for o in heap):
+                _bad(node, "comprehension element stores an attribute")
+            cname = h2[v[1]]["__class__"]
+            return ("L", ("obj", cname), f"(map (fun x_ => {self.record_ctors[cname](self, h2[v[1]], h2)}) {src[2]})")
         if v[0] not in ("Q", "Z", "B"):
             _bad(node, "comprehension element kind")
         return ("L", v[0], f"(map (fun x_ => {v[1]}) {src[2]})")
@@ -560,6 +567,9 @@ class Translator:
         if fname == "hasattr" and len(node.args) == 2:
             v = self.expr(node.args[0], env, heap)
             a = self.expr(node.args[1], env, heap)
+            if a[0] == "S" and (v[0], a[1]) in getattr(self, "value_hasattr", {}):
+                # an opaque value kind: which attributes it carries is part of the stated configuration
+                return k(("static", self.value_hasattr[(v[0], a[1])]), heap)
             if v[0] != "ref" or a[0] != "S":
                 _bad(node, "hasattr")
             return k(("static", a[1] in heap[v[1]]), heap)
@@ -861,6 +871,8 @@ class Translator:
             _bad(s, "for-else")
         it = self.expr(s.iter, env, heap)
         if it[0] == "L":
+            if self.is_map_loop(s, env):
+                return self.for_map(s, it, env, heap, cont, fn)
             return self.for_find(s, it, env, heap, cont, k_ret, fn)
         if it[0] != "pylist":
             _bad(s, "for over this kind of value")
@@ -872,6 +884,88 @@ class Translator:
             return self.assign(s.target, items[i], env, heap,
                                lambda e, h: self.block(s.body, e, h, k_ret, lambda e2, h2: step(i + 1, e2, h2), fn), s)
         return step(0, env, heap)
+
+    def is_map_loop(self, s, env):
+        last = s.body[-1]
+        return (isinstance(last, ast.Expr) and isinstance(last.value, ast.Call)
+                and isinstance(last.value.func, ast.Attribute) and last.value.func.attr == "append"
+                and isinstance(last.value.func.value, ast.Name)
+                and env.get(last.value.func.value.id, NONE) == ("pylist", []))
+
+    def for_map(self, s, it, env, heap, cont, fn):
+        """acc = []; for x in <Coq list>: <straight-line / branching statements on locals>; acc.append(E)
+        ->  acc = map (fun x => E') l.  Every iteration reaches the append exactly once; the body may not return,
+        break, continue, raise, loop, store an attribute of an object that existed before the iteration, or mention acc;
+        the locals it assigns may not be read after the loop."""
+        call = s.body[-1].value
+        acc = call.func.value.id
+        if len(call.args) != 1 or call.keywords:
+            _bad(s, "append form")
+        if not isinstance(s.target, ast.Name):
+            _bad(s, "for target")
+        if self.aliased(acc, env[acc], env, heap):
+            _bad(s, "append to a list that may be shared")
+        pre = s.body[:-1]
+        for st in pre + [call.args[0]]:
+            for n in ast.walk(st):
+                if isinstance(n, (ast.Return, ast.Break, ast.Continue, ast.While, ast.For)):
+                    _bad(s, "control flow inside a list-building loop")
+                if isinstance(n, ast.Name) and n.id == acc:
+                    _bad(s, "the list being built is mentioned inside the loop")
+        assigned = {n.id for st in pre for n in ast.walk(st) if isinstance(n, ast.Name) and isinstance(n.ctx, ast.Store)}
+        assigned.add(s.target.id)
+        for n in ast.walk(fn):
+            if isinstance(n, ast.Name) and isinstance(n.ctx, ast.Load) and n.id in assigned \
+                    and getattr(n, "lineno", 0) > s.end_lineno:
+                _bad(s, f"local {n.id} of a list-building loop is read after the loop")
+        cnt = self._fresh = getattr(self, "_fresh", 0) + 1
+        mv = f"m_{cnt}"
+        var, ek = s.target.id, it[1]
+        h2, env2 = copy.deepcopy(heap), dict(env)
+        del env2[acc]
+        if isinstance(ek, tuple) and ek[0] == "obj":
+            env2[var] = self.sym_object(ek[1], mv, h2)
+        elif ek in ("Q", "Z") or ek in self.value_types:
+            env2[var] = (ek, mv)
+        else:
+            _bad(s, "for over a list of this element kind")
+        h0 = copy.deepcopy(h2)
+        ret = ast.Return(value=call.args[0])
+        ast.copy_location(ret, s.body[-1])
+
+        def no_end(e, h):
+            _bad(s, "list-building loop: an iteration ends without appending")
+        try:
+            body = self.block(pre + [ret], env2, h2, lambda v, h: ("ret", v, h), no_end, fn)
+        except PathRaise:
+            _bad(s, "loop body raises")
+        kinds = set()
+
+        def elem(t):
+            v, h = t[1], t[2]
+            if any(h.get(o) != h0[o] for o in h0):
+                _bad(s, "loop body stores an attribute of an object that outlives the iteration")
+            if v[0] == "ref" and h[v[1]]["__class__"] in getattr(self, "record_ctors", {}) and v[1] not in h0:
+                cname = h[v[1]]["__class__"]
+                kinds.add(("obj", cname))
+                return self.record_ctors[cname](self, h[v[1]], h)
+            if v[0] in ("Q", "Z", "B"):
+                kinds.add(v[0])
+                return v[1]
+            _bad(s, "kind of the appended value")
+
+        def rend(t):
+            if t[0] == "if":
+                return f"(if {t[1]} then {rend(t[2])} else {rend(t[3])})"
+            if t[0] == "ret":
+                return elem(t)
+            _bad(s, "list-building loop body can raise or loops")
+        text = rend(body)
+        if len(kinds) != 1:
+            _bad(s, "appended values of different kinds")
+        env = dict(env)
+        env[acc] = ("L", kinds.pop(), f"(map (fun {mv} => {text}) {it[2]})")
+        return cont(env, heap)
 
     def for_find(self, s, it, env, heap, cont, k_ret, fn):
         """for x in <Coq list>: <ifs whose leaves are `return <x | number | bool>` or fall through>
@@ -1181,7 +1275,7 @@ class Translator:
             return qlit(v[1]) if ret == "Q" else (f"{v[1]}%Z" if v[1] >= 0 else f"({v[1]})%Z")
         if v[0] == "static":
             return "true" if v[1] else "false"
-        if v[0] == "L" and not isinstance(v[1], tuple):
+        if v[0] == "L":
             return v[2]
         if v[0] == "tup":
             return "(" + ", ".join(self.render_val(x, heap, ret) for x in v[1]) + ")"
